@@ -20,6 +20,8 @@ TESTS = {
                          bound='one adversarial (public key, signature) pair for ML-DSA-87 (finding F1): verify returns false without panicking'),
     'nf_sk_total': dict(fns=['expand_private', 'sk_decode', 'sk_encode', 'try_from_bytes', 'into_bytes', 'inv_ntt', 'ntt'], props=['C09', 'C10', 'C13'],
                         bound='5 structured accepted private-key byte strings per parameter set (generated, arbitrary t0, zero t0 bytes, all s = +eta, all s = -eta): re-serialised identically'),
+    'nf_infinity_norm': dict(fns=['infinity_norm', 'center_mod'], props=['C02', 'C01', 'C03', 'C15'],
+                             bound='one-hot vectors at 4 indices x 5 values around each of 12 anchors (0, gamma1-beta, gamma2, (q-1)/2, q, domain end; both signs) and 7 two-hot vectors'),
     'nf_sk_fields': dict(fns=['sk_decode', 'expand_private', 'try_from_bytes', 'bit_unpack', 'is_in_range'], props=['C10', 'C13'],
                          bound='every s1/s2 field position x every field value, on one honestly generated key per parameter set'),
 }
